@@ -211,11 +211,6 @@ func copyPartsOK(env *ty.Env, t *ty.Ty) bool {
 		if ctx == CtxKey && !env.CanEqual(x) {
 			ok = false
 		}
-		if ux := env.Under(x); ux.K == ty.Map {
-			if v := env.Under(ux.Elem); v.K == ty.Array && !env.CanEqual(ux.Elem) {
-				ok = false
-			}
-		}
 	})
 	return ok
 }
